@@ -894,6 +894,115 @@ func c15Sanitized(m *chart.Metadata) *chart.Metadata {
 	return c
 }
 
+// c15TgzDepth: how deep archives are nested inside the data ("charts/x.tgz" inside an archive ...)
+func c15TgzDepth(data []byte, limit int) int {
+	if limit == 0 {
+		return 0
+	}
+	ents, ok := c15ScanTgz(data)
+	if !ok {
+		return 0
+	}
+	d := 1
+	for _, e := range ents {
+		if strings.HasSuffix(e.Name, ".tgz") && strings.Contains(e.Name, "/charts/") {
+			if k := 1 + c15TgzDepth(e.Data, limit-1); k > d {
+				d = k
+			}
+		}
+	}
+	return d
+}
+
+func c15FilesTags(files []c15File) string {
+	tags := ""
+	depth, prov, names := 0, false, map[string]bool{}
+	for _, f := range files {
+		if strings.HasPrefix(f.Name, "charts/") {
+			rest := strings.TrimPrefix(f.Name, "charts/")
+			names[strings.SplitN(rest, "/", 2)[0]] = true
+			if strings.HasSuffix(f.Name, ".tgz") && !strings.Contains(rest, "/") {
+				if k := c15TgzDepth(f.Data, 4); k > depth {
+					depth = k
+				}
+			}
+		}
+		if strings.HasSuffix(f.Name, ".prov") {
+			prov = true
+		}
+	}
+	if depth > 0 {
+		tags += fmt.Sprintf("+tgz%d", depth)
+	}
+	if prov {
+		tags += "+prov"
+	}
+	for a := range names {
+		for b := range names {
+			if a != b && (strings.HasPrefix(b, a) || strings.EqualFold(a, b)) {
+				return tags + "+pfx"
+			}
+		}
+	}
+	return tags
+}
+
+// c15ChartTags: the input classes of round 4 present in a generated chart
+func c15ChartTags(s *c15Chart) string {
+	v1req, prov, pfx, tgz := false, false, false, 0
+	var walk func(d *c15Chart)
+	walk = func(d *c15Chart) {
+		for _, f := range d.Files {
+			if d.Meta != nil && d.Meta.APIVersion == "v1" && (f.Name == "requirements.yaml" || f.Name == "requirements.lock") {
+				v1req = true
+			}
+			if strings.HasSuffix(f.Name, ".prov") {
+				prov = true
+			}
+			if strings.HasPrefix(f.Name, "charts/") && strings.HasSuffix(f.Name, ".tgz") {
+				if k := c15TgzDepth(f.Data, 4); k > tgz {
+					tgz = k
+				}
+			}
+		}
+		for i, a := range d.Deps {
+			for j, b := range d.Deps {
+				if i != j && a.Meta != nil && b.Meta != nil && (strings.HasPrefix(b.Meta.Name, a.Meta.Name) || strings.EqualFold(a.Meta.Name, b.Meta.Name)) {
+					pfx = true
+				}
+			}
+			walk(a)
+		}
+	}
+	walk(s)
+	t := ""
+	if v1req {
+		t += "+v1req"
+	}
+	if tgz > 0 {
+		t += fmt.Sprintf("+tgz%d", tgz)
+	}
+	if prov {
+		t += "+prov"
+	}
+	if pfx {
+		t += "+pfx"
+	}
+	return t
+}
+
+// the input classes of round 4, counted over the run: report.extra.round4_input_classes
+var c15TagCount = map[string]int{}
+
+func c15CountTags(kind, tags string) {
+	hx.Extra["round4_input_classes"] = c15TagCount
+	for _, t := range strings.Split(tags, "+") {
+		if t != "" {
+			c15TagCount[kind+":"+t]++
+		}
+	}
+}
+
 func (p *c15) Class(ci, oi any) string {
 	c, obs := ci.(c15Case), oi.(c15Obs)
 	switch c.Kind {
@@ -913,17 +1022,24 @@ func (p *c15) Class(ci, oi any) string {
 		if len(c.Chart.Deps) > 0 {
 			k += ":deps"
 		}
+		c15CountTags("rt", c15ChartTags(c.Chart))
 		return k + ":" + c.Chart.Meta.APIVersion
 	case "files":
-		if obs.LoadErr != "" {
-			return "files:" + obs.LoadErr
+		k := "files:"
+		if c.Note == "tree-shuffled" {
+			k = "files:tree-shuffled:"
 		}
-		return "files:loaded"
+		if obs.LoadErr != "" {
+			return k + obs.LoadErr
+		}
+		c15CountTags("files(loaded)", c15FilesTags(c.Files))
+		return k + "loaded"
 	case "dir":
 		k := "dir:"
 		if obs.DirErr != "" {
 			return k + obs.DirErr
 		}
+		c15CountTags("dir(loaded)", c15FilesTags(c.Files))
 		if obs.PkgErr != "" {
 			return k + "loaded:package-refused"
 		}
